@@ -120,6 +120,14 @@ func RunAPI(h *APIHistory, res *vprop.Result) {
 	}
 	rec := &RecVault{Vault: inner, lab: l}
 	l.slowReadNth, l.slowReadUs = h.SlowReadNth, h.SlowReadUs
+	// the in-memory store is released when the history ended with nothing executing any more (a vault that is closed
+	// under a running plan would make the engine exit); a stalled history keeps its store
+	quiescentEnd := false
+	defer func() {
+		if quiescentEnd {
+			_ = inner.Close(ctx)
+		}
+	}()
 	var opts []coercion.Option
 	if h.MaxSubmitMs > 0 {
 		opts = append(opts, coercion.WithMaxSubmit(time.Duration(h.MaxSubmitMs)*time.Millisecond))
@@ -417,6 +425,8 @@ func RunAPI(h *APIHistory, res *vprop.Result) {
 		res.Skip = true
 		return
 	}
+
+	quiescentEnd = l.openTotal() == 0
 
 	// ---- oracle
 	ix := BuildIndex(&RunResult{Sc: sc, Events: evs})
